@@ -47,8 +47,8 @@ MODEL = {
     "C11": (["press", "fork_oc"], ["chain", "two_long"]),
 }
 MIX = {
-    "C01": (("valid", 0.3), ("mixed", 0.5), ("susp", 0.2)),
-    "C02": (("valid", 0.3), ("mixed", 0.4), ("susp", 0.3)),
+    "C01": (("valid", 0.25), ("mixed", 0.4), ("susp", 0.15), ("orphan", 0.2)),
+    "C02": (("valid", 0.3), ("mixed", 0.4), ("susp", 0.2), ("orphan", 0.1)),
     "C03": (("valid", 0.3), ("mixed", 0.3), ("pressure", 0.1), ("susp", 0.3)),
     "C04": (("valid", 0.25), ("mixed", 0.1), ("pressure", 0.35), ("susp", 0.2), ("swarm", 0.1)),
     "C05": (("valid", 0.6), ("susp", 0.3), ("pressure", 0.1)),
